@@ -222,6 +222,12 @@ class CallMixin:
             a0 = self.force(args[0], frame, node)
             if isinstance(a0, (StrV, Opaque)):
                 return Opaque(d, ambient=getattr(a0, "ambient", False))
+            if d in ("numpy.exp", "math.exp") and isinstance(a0, Num) and a0.addends and len(a0.addends) > 1:
+                res = mk_exp(a0.r)
+                sa = res.single_atom()
+                if sa is not None:
+                    sa.meta["addends"] = list(a0.addends)
+                return Num(res)
             return self.map_num(a0, unary[d], frame, node)
         binary = {"numpy.multiply": ast.Mult(), "numpy.divide": ast.Div(), "numpy.subtract": ast.Sub(),
                   "numpy.add": ast.Add(), "numpy.power": ast.Pow(), "builtins.pow": ast.Pow(), "math.pow": ast.Pow()}
